@@ -3499,6 +3499,8 @@ void set_inc_list (const char *list) {
         }
       if (*p == '/')
         p++;
+      if (*p == '\0')
+        p = ".";		/* "/" is the mudlib directory, never the host's root */
 
       if (!legal_path (p))
         {
